@@ -36,7 +36,14 @@ def plan_st(draw, tier):
     n_prior = len(h.ops)
     old_rows = h.rows
     h.max_rows = draw(st.sampled_from([2, 6, 12]))
-    h.fit(new_d=draw(st.booleans()))
+    npn = cfg["np"][0] if cfg["np"] else None
+    if npn in (None, "Radius", "TreeBandit") and draw(st.integers(0, 9)) == 0:
+        # D with zero rows (an empty array with d columns for contextual bandits): a fresh bandit fit on it is untrained
+        h.ops.append(["fit", [], [], {"empty": h.d} if h.contextual else None])
+        h.rows = 0
+        h.fitted = True
+    else:
+        h.fit(new_d=draw(st.booleans()))
     for _ in range(draw(st.integers(1, 7 if tier == "quick" else 12))):
         gen.step_any(h, ["partial_fit"] + gen.ARM_KINDS + gen.WARM_KINDS + gen.QUERY_KINDS * 3 + ["cold_arms"], True)
     return {"config": cfg, "prior": h.ops[:n_prior], "refit": h.ops[n_prior], "cont": h.ops[n_prior + 1:],
@@ -61,16 +68,19 @@ def evaluate(plan, ctx):
     except Exception as e:
         raise Violation("rebuild", "constructing a fresh bandit from the public properties raised %r" % (e,))
     mode = streams.align(b, f, normalise=False)
-    twin.run_both(b, f, [plan["refit"]], "refit_vs_fresh", "re-fitted bandit", "fresh bandit")
-    twin.run_both(b, f, plan["cont"], "refit_vs_fresh", "re-fitted bandit", "fresh bandit", start=1)
+    empty = len(plan["refit"][1]) == 0
+    twin.run_both(b, f, [plan["refit"]], "refit_vs_fresh", "re-fitted bandit", "fresh bandit", allow_exc=empty)
+    twin.run_both(b, f, plan["cont"], "refit_vs_fresh", "re-fitted bandit", "fresh bandit", start=1, allow_exc=empty)
     kinds = [op[0] for op in plan["prior"]]
     nt = any(k in ops.TRAIN_OPS for k in kinds) and any(
         k in ("add_arm", "remove_arm", "warm_start") for k in kinds) or kinds.count("partial_fit") + kinds.count(
         "fit") >= 2
     ev = twin.pair_events(cfg) + ["align=" + mode]
+    if empty:
+        ev.append("D_empty")
     if len(plan["refit"][1]) < plan["old_rows"]:
         ev.append("D_shorter_than_history")
-    if plan["refit"][3] is not None and plan["prior"] and any(
+    if plan["refit"][3] is not None and not empty and plan["prior"] and any(
             op[0] in ops.TRAIN_OPS and op[3] is not None and len(op[3][0]) != len(plan["refit"][3][0])
             for op in plan["prior"]):
         ev.append("D_other_column_count")
